@@ -332,6 +332,19 @@ def run_r4(ctx, rule):
             for cid, g in facts.fns.items():
                 if g.kind == "Closure" and norm(cid).startswith(TOK + "interactive_end_of_line"):
                     ok_alt = ok_alt or any(norm(util.cname(t2)) == TOK + "eof" for _, t2 in g.calls())
+    if not (ok_first and ok_alt):
+        # the same thing spelled out: `match newline(input) { Fallthrough => eof(input), parsed => parsed }` - eof is
+        # attempted exactly on the edge on which the line-end token fell through
+        fall = [v.get("discr") for v in (facts.adts.get("flussab::parser::Parsed") or {"variants": []})["variants"] if v["name"] == "Fallthrough"]
+        for bb, t in f.calls():
+            if norm(util.cname(t)) != TOK + "eof" or not fall:
+                continue
+            for _s, fa in guards.facts_at(f, bb):
+                if fa[0] == "eq" and fa[2] == fall[0] and fa[1][0] == "discr" and fa[1][1][0] == "call" and norm(fa[1][1][2]) in (TOK + "interactive_newline", TOK + "newline"):
+                    first_bb = fa[1][1][1]
+                    others = [b2 for b2, t2 in f.calls() if b2 not in (first_bb, bb) and not norm(util.cname(t2)).startswith("core::")]
+                    if not others:
+                        ok_first = ok_alt = True
     rule.check(ok_first and ok_alt, "interactive_end_of_line/shape", "interactive_end_of_line is `newline, or else end of input`", f.loc())
 
 
